@@ -248,7 +248,12 @@ def one_setup(chk, drv, it, stats):
     serial_phi = None
     for gi, nprocs in enumerate(proc_grids(nr, nth, nz, chk.n(4, 6))):
         desc = dict(desc0, nprocs=list(nprocs))
+        knots_before = [(b, np.array(b.knots, copy=True)) for b in S['bsplines'] if b is not None]
         res = run_pipeline(S, cfg, nprocs, F=F, rho0=rho0, seed=it * 101 + gi)
+        if any(not np.array_equal(k0, np.asarray(b.knots)) for b, k0 in knots_before):
+            # the spline spaces belong to the caller (they are shared with the grids and the advection operators)
+            chk.fail('C15:spline-space-modified', 'building / using the quasi-neutrality solver changed the knots of a spline space it was given', desc)
+            return
         if not res.ok:
             err = str(res.first_error())
             chk.fail('C15:crash', 'pipeline raised: ' + err[:200], desc)
